@@ -571,12 +571,12 @@ var fundEdits = []fundEdit{
 
 type settleEdit struct {
 	name string
-	edit func(rng *rand.Rand, cur, orig *channel.State, fin *channel.State) *channel.State
+	edit func(rng *rand.Rand, cur, orig *channel.State, fin, pre *channel.State) *channel.State
 }
 
 var settleEdits = []settleEdit{
-	{"control-honest-settlement", func(rng *rand.Rand, cur, orig *channel.State, fin *channel.State) *channel.State { return orig }},
-	{"everything-credited-to-the-sender", func(rng *rand.Rand, cur, orig *channel.State, fin *channel.State) *channel.State {
+	{"control-honest-settlement", func(rng *rand.Rand, cur, orig *channel.State, fin, pre *channel.State) *channel.State { return orig }},
+	{"everything-credited-to-the-sender", func(rng *rand.Rand, cur, orig *channel.State, fin, pre *channel.State) *channel.State {
 		changed := false
 		for ai := range orig.Balances {
 			tot := new(big.Int).Add(fin.Balances[ai][0], fin.Balances[ai][1])
@@ -591,7 +591,7 @@ var settleEdits = []settleEdit{
 		}
 		return orig
 	}},
-	{"credits-swapped", func(rng *rand.Rand, cur, orig *channel.State, fin *channel.State) *channel.State {
+	{"credits-swapped", func(rng *rand.Rand, cur, orig *channel.State, fin, pre *channel.State) *channel.State {
 		changed := false
 		for ai := range orig.Balances {
 			if fin.Balances[ai][0].Cmp(fin.Balances[ai][1]) != 0 {
@@ -605,14 +605,30 @@ var settleEdits = []settleEdit{
 		}
 		return orig
 	}},
-	{"also-renames-another-sub-allocation", func(rng *rand.Rand, cur, orig *channel.State, fin *channel.State) *channel.State {
+	{"also-renames-another-sub-allocation", func(rng *rand.Rand, cur, orig *channel.State, fin, pre *channel.State) *channel.State {
 		if len(orig.Locked) < 1 {
 			return nil
 		}
 		orig.Locked[0].ID[7] ^= 2
 		return orig
 	}},
-	{"one-unit-from-the-victim", func(rng *rand.Rand, cur, orig *channel.State, fin *channel.State) *channel.State {
+	{"credits-the-balances-before-the-final-update", func(rng *rand.Rand, cur, orig *channel.State, fin, pre *channel.State) *channel.State {
+		// the sub-channel's final update also moved funds; the settlement pays out the state before it
+		changed := false
+		for ai := range orig.Balances {
+			for p := 0; p < 2; p++ {
+				if pre.Balances[ai][p].Cmp(fin.Balances[ai][p]) != 0 {
+					changed = true
+				}
+				orig.Balances[ai][p] = new(big.Int).Add(cur.Balances[ai][p], pre.Balances[ai][p])
+			}
+		}
+		if !changed {
+			return nil
+		}
+		return orig
+	}},
+	{"one-unit-from-the-victim", func(rng *rand.Rand, cur, orig *channel.State, fin, pre *channel.State) *channel.State {
 		if orig.Balances[0][1].Sign() <= 0 {
 			return nil
 		}
@@ -831,7 +847,13 @@ func history(s sink.Sink, em *childrun.Emitter, rng *rand.Rand, sample bool) int
 		subV := a.V.Channel(sub.ID())
 		if subV != nil {
 			_ = a.M.Pay(sub, 0, 1, false)
-			if err := a.M.Pay(sub, 0, 0, true); err == nil {
+			pre := subV.State().Clone()
+			// the finalizing update may carry a last payment
+			last := int64(rng.Intn(3))
+			if b := sub.State().Balances[0][sub.Idx()]; !b.IsInt64() || b.Int64() < last {
+				last = 0
+			}
+			if err := a.M.Pay(sub, 0, last, true); err == nil {
 				se := settleEdits[rng.Intn(len(settleEdits))]
 				point := "sub-channel-settlement"
 				a.setCase(point, se.name)
@@ -843,7 +865,7 @@ func history(s sink.Sink, em *childrun.Emitter, rng *rand.Rand, sample bool) int
 					var out *channel.State
 					func() {
 						defer func() { _ = recover() }()
-						out = se.edit(rng, cur, orig, fin)
+						out = se.edit(rng, cur, orig, fin, pre)
 					}()
 					applied = out != nil
 					return out
